@@ -94,6 +94,88 @@ fn cycle_run<T: Scalar>(spec: &Spec, alpha: &[f64], p: usize, len: usize, st: &m
     st.configs += 1;
 }
 
+/// Delayed inner view: the indicator is chained behind a view that reports nothing for its first
+/// updates. Every word over alpha of length `depth`; the values the stand-alone inner view reports are
+/// the indicator's input history, and the indicator's warm-up and start-up state count those values
+/// only (updates on which the inner view has nothing to report deliver nothing).
+fn delayed_run<T: Scalar>(spec: &Spec, alpha: &[f64], depth: usize, st: &mut Stats, sink: &Sink) {
+    let inner = spec.ch[0].clone();
+    let mut idx = vec![0usize; depth];
+    'words: loop {
+        T::reset_arena();
+        let hist: Vec<f64> = idx.iter().map(|&i| alpha[i]).collect();
+        let r = crate::explore::guard(|| {
+            let c0 = T::inexact();
+            let mut v = build::<T>(spec);
+            let mut a = build::<T>(&inner);
+            let mut fed: Vec<T> = vec![];
+            let mut fedf: Vec<f64> = vec![];
+            let mut bad = None;
+            for i in 0..depth {
+                let x = T::of(hist[i]);
+                v.update(x);
+                a.update(x);
+                st.transitions += 1;
+                let got = v.last();
+                match a.last() {
+                    Some(y) => {
+                        fed.push(y);
+                        fedf.push(y.f());
+                    }
+                    None => {
+                        if fed.is_empty() && got.is_some() {
+                            bad = Some((i, got, None));
+                            break;
+                        }
+                        continue;
+                    }
+                }
+                let wants = expect::<T>(spec, &fed);
+                let tainted = T::inexact() > c0;
+                let tol = 1e-9 * scale_of(spec, &fedf);
+                st.oracle_evals += 1;
+                st.out(got.map(|g| g.f()));
+                if !wants.iter().any(|w| agrees(got, *w, tol, tainted)) {
+                    bad = Some((i, got, wants[0]));
+                    break;
+                }
+            }
+            bad
+        });
+        st.states += depth as u64;
+        st.traces += 1;
+        match r {
+            Ok(Some((i, got, want))) => sink.push(Violation::new(
+                "C11",
+                spec,
+                "difference-equation-delayed-inner",
+                T::NAME,
+                &hist[..=i],
+                format!(
+                    "implementation {} but the batch evaluation of the equations over the values its inner view delivered gives {}",
+                    show(got),
+                    show(want)
+                ),
+            )),
+            Ok(None) => {}
+            Err(msg) => sink.push(Violation::new("C11", spec, "panicked", T::NAME, &hist, msg)),
+        }
+        let mut k = depth;
+        loop {
+            if k == 0 {
+                break 'words;
+            }
+            k -= 1;
+            idx[k] += 1;
+            if idx[k] < alpha.len() {
+                break;
+            }
+            idx[k] = 0;
+        }
+    }
+    st.configs += 1;
+}
+
 pub fn specs(quick: bool) -> Vec<Spec> {
     use Kind::*;
     let mut v = vec![];
@@ -266,6 +348,43 @@ pub fn run(ctx: &Ctx) -> CheckOutput {
                 ref_drivers_sparse::<f64>("C11", &spec, &drivers, &at, &mut st, &sink, &|h, hf, v, out| oracle::<f64>(&spec, h, hf, v, out));
                 JobOut { stats: st, viols: sink.take(), samples: vec![json!({"explorer":"LONG (sparse oracle)","scalar":"f64","view":spec.name(),"driver":"2 lively prefixes x flat stretches of 12, 30, 100, 400 values at 3 levels x 2 lively suffixes","drivers":24})] }
             }));
+        }
+    }
+    // delayed inner view: each indicator chained behind a view with a warm-up of its own (Sma(3): two
+    // silent updates; Ema(2): one). The indicator's own warm-up and start-up state must count the
+    // delivered values only.
+    {
+        use Kind::*;
+        let e = Spec::echo;
+        let inners = [Spec::un(Sma, 3, e()), Spec::un(Ema, 2, e())];
+        for inner in inners {
+            let i = || inner.clone();
+            let mut list: Vec<Spec> = vec![];
+            for n in if quick { vec![2usize, 3, 5] } else { vec![1, 2, 3, 4, 5, 7] } {
+                list.push(Spec::un(SuperSmoother, n, i()));
+                list.push(Spec::un(LaguerreRsi, n, i()));
+                if n >= 2 {
+                    list.push(Spec::roofing(n, 2, i()));
+                    list.push(Spec::roofing(n, 3, i()));
+                    list.push(Spec::with_ma(Eft, n, i(), Spec::un(Sma, 3, e())));
+                }
+                list.push(Spec::un(CyberCycle, n, i()));
+                if n >= 3 {
+                    list.push(Spec::un(TrendFlex, n, i()));
+                    list.push(Spec::un(ReFlex, n, i()));
+                    list.push(Spec::with_ma(Pfe, n, i(), Spec::un(Sma, 2, e())));
+                }
+            }
+            list.push(Spec::unp(LaguerreFilter, 0, vec![0.3], i()));
+            for spec in list {
+                let depth = (spec.n.max(1) + 5).min(if quick { 8 } else { 10 });
+                jobs.push(Box::new(move || {
+                    let mut st = Stats::default();
+                    let sink = Sink::new();
+                    delayed_run::<f64>(&spec, &Z3, depth, &mut st, &sink);
+                    JobOut { stats: st, viols: sink.take(), samples: vec![json!({"explorer":"TREE (every word)","scalar":"f64","view":spec.name(),"family":"delayed inner view","alphabet":Z3.to_vec(),"depth":depth})] }
+                }));
+            }
         }
     }
     let o = run_jobs(jobs, ctx.seed);
